@@ -31,8 +31,8 @@ RULE = ("L2: JobServerSemaphore over a real pipe holding n in 1..4 tokens (recur
         "durations (0-80 ms), optionally one failing step and -k. Event log oracle: (1) a step starts only after the "
         "successful end of every dependency step (arguments, tools, previous step of the package) that the "
         "sequential build executed; (2) no workspace is started twice; (3) never more than N steps are open; (4) with "
-        "a failing step the exit status is non-zero, no transitive dependent starts and with -k (failing build or "
-        "package step) every other step of the sequential build completes; without failure exactly the steps of the sequential build run; (5) every "
+        "a failing step the exit status is non-zero, no transitive dependent starts, without -k at most N-1 steps start "
+        "after the failure, and with -k (failing build or package step) every other step of the sequential build completes; without failure exactly the steps of the sequential build run; (5) every "
         "package result equals the sequential build; (6) in builds that are not aborted (success, or failure under "
         "-k) all N (N-1) tokens are back in the FIFO at shutdown. Non-trivial: >=2 steps were open at the same time "
         "and some step is a dependency of >=2 other executed steps; distinct = hash of the case.")
@@ -447,6 +447,14 @@ def run_build_case(ctx, case, confirm=False):
                              "stderr: %s" % (what, missing, rw.err[-300:]), case)
             else:
                 aborted = True
+                # without -k the failure stops the build: steps that are running finish, nothing new is started. Between
+                # the failing script's end event and Bob noticing the dead process each other job may start one more step.
+                pos = next((i for i, e in enumerate(ev) if e[0] == "end" and e[1] == fail_key and e[2] != "0"), None)
+                if pos is not None:
+                    late = [e[1] for e in ev[pos + 1:] if e[0] == "start"]
+                    if len(late) > N - 1:
+                        ctx.fail("failure-did-not-stop-build", "%s: %d steps were started after the failure: %r" % (what, len(late), late), case)
+                    ctx.label("L1:starts-after-failure:%d" % min(len(late), 3))
         else:
             if rw.rc != 0:
                 ctx.fail("parallel-build-fails", "%s: the sequential build succeeds, the parallel one fails: %s" % (what, rw.err[-500:]), case)
